@@ -1421,7 +1421,7 @@ done:
   return rv;
 }
 
-static void ares_detach_query(ares_query_t *query)
+void ares_detach_query(ares_query_t *query)
 {
   /* Remove the query from all the lists in which it is linked.  This may be
    * called more than once for the same query (before its callback runs and
